@@ -1,22 +1,788 @@
-"""Rules on the token matcher (placeholder, filled below)."""
-from ..common import Report
+"""Rules on the token matcher's normal form (C03.text, C04.col, C05, C10.types, C13, C15.reset, C16)."""
+from __future__ import annotations
+
+import ast
+
+from ..absint import new_interp, Interp, HList, HDict, HInst, NONE, const, is_const, fmt, fmt_seg, fmt_tree, mk_not
+from ..common import AnalysisError, Report
+from ..facts import facts
+from .. import nf
+
+MFILE = "python/gherkin/token_matcher.py"
+MQ = "gherkin.token_matcher.TokenMatcher"
+SINK = f"{MQ}._set_token_matched"
+KINDS = ["FeatureLine", "RuleLine", "BackgroundLine", "ScenarioLine", "ExamplesLine", "StepLine", "TableRow", "TagLine",
+         "DocStringSeparator", "Language", "Comment", "Empty", "Other", "EOF"]
 
 
-def rule_keyword_types(rep: Report, rid: str) -> None:
-    pass
+def _sink_intrinsic(I, st, fi, args, kwargs, n, tree):
+    a = fi.node.args
+    names = [p.arg for p in a.posonlyargs + a.args]
+    b = {}
+    for i, nm in enumerate(names):
+        if i < len(args):
+            b[nm] = args[i]
+        elif nm in kwargs:
+            b[nm] = kwargs[nm]
+    tree.append(("sink", b, getattr(n, "lineno", None)))
+    return NONE
 
 
-def rule_dialect_triple(rep: Report, rid: str) -> None:
-    pass
+# ---- linear integer terms ------------------------------------------------------------------
+def lin(t):
+    """Linear normal form {atom: coeff, 1: const} of an integer term; None when not linear.
+    len(a + b) = len(a) + len(b); len('lit') is a constant."""
+    if is_const(t) and isinstance(t[1], int) and not isinstance(t[1], bool):
+        return {1: t[1]}
+    if t[0] == "binop" and t[1] in ("Add", "Sub"):
+        a, b = lin(t[2]), lin(t[3])
+        if a is None or b is None:
+            return None
+        out = dict(a)
+        for k, v in b.items():
+            out[k] = out.get(k, 0) + (v if t[1] == "Add" else -v)
+        return {k: v for k, v in out.items() if v != 0 or k == 1}
+    if t[0] == "call" and t[1] == "len" and len(t[2]) == 1:
+        x = t[2][0]
+        if is_const(x) and isinstance(x[1], str):
+            return {1: len(x[1])}
+        if x[0] == "binop" and x[1] == "Add":
+            return lin(("binop", "Add", ("call", "len", (x[2],), ()), ("call", "len", (x[3],), ())))
+        return {("len", x): 1}
+    return {t: 1}
 
 
-def rule_text_extraction(rep, rid):
-    pass
+def lin_eq(a, b) -> bool:
+    la, lb = lin(a), lin(b)
+    if la is None or lb is None:
+        return False
+    norm = lambda d: {k: v for k, v in d.items() if v != 0}
+    return norm(la) == norm(lb)
 
 
-def rule_docstring_fsm(rep, rid):
-    pass
+def fmt_lin(t, I=None) -> str:
+    return fmt(t, I)
 
 
-def rule_reset(rep, rid):
-    pass
+class MethodNF:
+    def __init__(self, I, fi, tree, rv):
+        self.I, self.fi, self.tree, self.rv = I, fi, tree, rv
+        self.sinks = [(n, ctx) for n, ctx in nf.iter_nodes(tree) if n[0] == "sink"]
+        p = fi.params()
+        self.selft = ("param", p[0])
+        self.tok = ("param", p[1]) if len(p) > 1 else None
+
+
+class MatcherNF:
+    """Normal forms of every match_<Kind> of a matcher class, with the single sink kept symbolic."""
+
+    def __init__(self, cls_q: str = MQ) -> None:
+        f = facts()
+        self.cls = f.cls(cls_q)
+        self.methods: dict[str, MethodNF] = {}
+        sink_fi = self.cls.find_method("_set_token_matched")
+        if sink_fi is None:
+            raise AnalysisError("anchor vanished: TokenMatcher._set_token_matched (the single matched-token sink)")
+        self.sink_q = sink_fi.qualname
+        for k in KINDS:
+            m = self.cls.find_method(f"match_{k}")
+            if m is None:
+                raise AnalysisError(f"anchor vanished: {cls_q}.match_{k}")
+            I = new_interp()
+            I.intrinsics[self.sink_q] = _sink_intrinsic
+            for prop in ("table_cells", "tags"):
+                pq = f"gherkin.gherkin_line.GherkinLine.{prop}"
+                if I.facts.has_func(pq):
+                    I.intrinsics[pq] = (lambda I_, st_, fi_, args, kwargs, n, tree_, prop=prop: ("prop", prop, args[0]))
+            # analyse with self typed as the class under analysis (virtual dispatch resolves to it)
+            tree, rv, _ = self._run(I, m)
+            self.methods[k] = MethodNF(I, m, tree, rv)
+
+    def _run(self, I, m):
+        # Interp.run types self as m.cls; for inherited methods analysed on a subclass, override
+        q = m.qualname
+        fi = I.facts.func(q)
+        selfname = fi.params()[0]
+        I.types[("param", selfname)] = self.cls
+        tree, rv, st = I.run(q)
+        return tree, rv, st
+
+
+_MNF = {}
+
+
+def mnf(cls_q: str = MQ) -> MatcherNF:
+    if cls_q not in _MNF:
+        _MNF[cls_q] = MatcherNF(cls_q)
+    return _MNF[cls_q]
+
+
+def _kw(m: MethodNF, line=None):
+    return dict(file=m.fi.file, line=line or m.fi.node.lineno, function=m.fi.qualname)
+
+
+# ---- the sink -----------------------------------------------------------------------------------
+def rule_sink(rep: Report, rid_col="C04.col", rid_crlf="C16.crlf", want=("col", "crlf", "fields")) -> None:
+    """_set_token_matched: column = matched indent + 1; matched text loses trailing CR/LF; fields stored as given."""
+    I = new_interp()
+    fi = I.facts.func(SINK)
+    rep.used_file(fi.file)
+    rep.used_function(fi.qualname)
+    tree, rv, st = I.run(SINK)
+    p = fi.params()
+    tok = ("param", "token")
+    par = lambda n: ("param", n)
+    kw = dict(file=fi.file, line=fi.node.lineno, function=fi.qualname)
+    if any(x not in p for x in ("token", "matched_type", "text", "keyword", "keyword_type", "indent", "items")):
+        raise AnalysisError(f"sink signature changed: {p}")
+    ext = st.ext if st else {}
+    line_indent = ("attr", ("attr", tok, "line"), "indent")
+    mi = ext.get((tok, "matched_indent"))
+    want_mi_forms = [
+        ("cond", ("cmp", "Is", par("indent"), NONE), ("cond", ("attr", tok, "line"), line_indent, const(0)), par("indent")),
+        ("cond", ("cmp", "Is", par("indent"), NONE), line_indent, par("indent")),
+    ]
+    if "col" in want:
+        rep.ob(rid_col, "matched indent = the indent given by the caller, else the line's own indent (0 for the EOF token)", mi in want_mi_forms, **kw,
+               expected=fmt(want_mi_forms[0], I), found=fmt(mi, I) if mi else "never set")
+        cols = [n for n, ctx in nf.iter_nodes(tree) if n[0] == "setitem" and n[1] == ("attr", tok, "location") and n[2] == const("column")]
+        ok = len(cols) == 1 and mi is not None and lin_eq(cols[0][3], ("binop", "Add", mi, const(1))) \
+            and not nf.guards_in_ctx([c for n, c in nf.iter_nodes(tree) if n is cols[0]][0])
+        rep.ob(rid_col, "location.column = matched indent + 1, set on every match", ok, **kw,
+               expected="token.location['column'] = token.matched_indent + 1", found=[fmt(c[3], I) for c in cols] or "column never set")
+    if "crlf" in want:
+        mt = ext.get((tok, "matched_text"))
+        forms = []
+        for chars in ("\r\n", "\n\r"):
+            r = ("call", ".rstrip", (par("text"), const(chars)), ())
+            forms += [("cond", ("cmp", "Is", par("text"), NONE), NONE, r), ("cond", par("text"), r, NONE)]
+        rep.ob(rid_crlf, "matched text of every token kind loses trailing carriage returns and line feeds (and nothing else)", mt in forms, **kw,
+               expected="text.rstrip('\\r\\n') if text is not None else None", found=fmt(mt, I) if mt else "never set")
+    if "fields" in want:
+        for attr, src in (("matched_type", "matched_type"), ("matched_keyword", "keyword"), ("matched_keyword_type", "keyword_type")):
+            v = ext.get((tok, attr))
+            rep.ob(rid_col.split(".")[0] + ".sink", f"token.{attr} is stored as passed", v == par(src), **kw, expected=src, found=fmt(v, I) if v else "never set")
+        v = ext.get((tok, "matched_items"))
+        ok = v is not None and v[0] == "cond" and v[1] == ("cmp", "Is", par("items"), NONE) and v[3] == par("items") \
+            and isinstance(I.obj(v[2]), HList) and not I.obj(v[2]).segs
+        rep.ob(rid_col.split(".")[0] + ".sink", "token.matched_items is the list passed, a fresh empty list by default", ok, **kw,
+               expected="[] if items is None else items", found=fmt(v, I) if v else "never set")
+        v = ext.get((tok, "matched_gherkin_dialect"))
+        rep.ob(rid_col.split(".")[0] + ".sink", "token.matched_gherkin_dialect is the dialect name in force at match time",
+               v == ("attr", ("param", p[0]), "dialect_name"), **kw, expected="self.dialect_name", found=fmt(v, I) if v else "never set")
+
+
+# ---- helper: first-match keyword loops -------------------------------------------------------------
+class KwMatch:
+    def __init__(self):
+        self.lists = None       # list of keyword-list terms, in order
+        self.test = None        # test term with keyword placeholder ('KW',)
+        self.keyword = None     # the term standing for the matched keyword at the sink
+        self.first_wins = False
+        self.loop = None
+
+
+KW = ("KW",)
+
+
+def _kw_loop(m: MethodNF, ctx) -> KwMatch | None:
+    """Recognise ``for k in (k for k in KWS if TEST(k)): ...sink...; return True`` and
+    ``for k in KWS: if TEST(k): ...sink...; return True``."""
+    I = m.I
+    loops = nf.loops_in_ctx(ctx)
+    if not loops:
+        return None
+    lid = loops[-1]
+    info = I.loops[lid]
+    it = info.get("iter")
+    r = KwMatch()
+    r.loop = lid
+    r.keyword = ("elem", lid)
+    o = I.obj(it)
+    base = None
+    if isinstance(o, HList) and len(o.segs) == 1 and o.segs[0][0] == "loop" and o.segs[0][2] == [("e", ("elem", o.segs[0][1]))]:
+        inner = o.segs[0][1]
+        ii = I.loops[inner]
+        base = ii.get("iter")
+        conds = ii.get("conds") or ()
+        if len(conds) != 1:
+            return None
+        r.test = nf.subst(conds[0], {("elem", inner): KW})
+    else:
+        base = it
+        # guards between the loop and the sink
+        idx = max(i for i, x in enumerate(ctx) if x[0] == "loop" and x[1] == lid)
+        gs = [nf.norm_guard(x[1], x[2]) for x in ctx[idx + 1:] if x[0] == "if"]
+        gs = [(c, p) for c, p in gs if nf.contains(c, lambda t: t == ("elem", lid))]
+        if len(gs) != 1 or not gs[0][1]:
+            return None
+        r.test = nf.subst(gs[0][0], {("elem", lid): KW})
+    if info.get("conds"):
+        return None
+    # keyword lists in order: '+' chains and list displays of splats
+    def parts(t):
+        if t[0] == "binop" and t[1] == "Add":
+            return parts(t[2]) + parts(t[3])
+        oo = I.obj(t)
+        if isinstance(oo, HList) and oo.segs and all(s[0] == "s" for s in oo.segs) and \
+                not any(n[0] == "mutate" and n[1] == t for n, _ in nf.iter_nodes(m.tree)):
+            out = []
+            for s in oo.segs:
+                out += parts(s[1])
+            return out
+        return [t]
+    r.lists = parts(base)
+    return r
+
+
+def _returns_true_after(m: MethodNF, sink_node) -> bool:
+    """The block containing the sink ends with ``return True`` (first match wins; nothing is tried afterwards)."""
+    def find(tree):
+        for i, n in enumerate(tree):
+            if n is sink_node:
+                rest = [x for x in tree[i + 1:] if x[0] not in ("alloc",)]
+                return bool(rest) and rest[-1][0] == "return" and is_const(rest[-1][1], True) and \
+                    all(x[0] in ("return", "setattr", "call") for x in rest)
+            if n[0] == "if":
+                for sub in (n[2], n[3]):
+                    r = find(sub)
+                    if r is not None:
+                        return r
+            elif n[0] == "loop":
+                r = find(n[2])
+                if r is not None:
+                    return r
+            elif n[0] == "call":
+                r = find(n[2])
+                if r is not None:
+                    return r
+        return None
+    return bool(find(m.tree))
+
+
+def line_terms(m: MethodNF):
+    tok = m.tok
+    line = ("attr", tok, "line")
+    return line, ("attr", line, "_trimmed_line_text"), ("attr", line, "_line_text")
+
+
+TITLE_ROLES = {
+    "FeatureLine": ["feature_keywords"],
+    "RuleLine": ["rule_keywords"],
+    "BackgroundLine": ["background_keywords"],
+    "ScenarioLine": ["scenario_keywords", "scenario_outline_keywords"],
+    "ExamplesLine": ["examples_keywords"],
+}
+STEP_LISTS = ["given_keywords", "when_keywords", "then_keywords", "and_keywords", "but_keywords"]
+
+
+def rule_roles(rep: Report, rid="C05.roles", rid_text="C03.text", cls_q=MQ, want=("roles", "text")) -> None:
+    """Role table: match_<Kind> tests the keyword lists of its own role, in order, first match wins; the text is the rest
+    of the trimmed line after exactly the prefix that was tested, stripped."""
+    M = mnf(cls_q)
+    for kind, lists in list(TITLE_ROLES.items()) + [("StepLine", STEP_LISTS)]:
+        m = M.methods[kind]
+        I = m.I
+        rep.used_file(m.fi.file)
+        rep.used_function(m.fi.qualname)
+        line, trimmed, raw = line_terms(m)
+        dialect = ("attr", m.selft, "dialect")
+        want_lists = [("attr", dialect, x) for x in lists]
+        got_lists = []
+        suffix = ":" if kind != "StepLine" else ""
+        rep.ob(rid if "roles" in want else rid_text, f"match_{kind} reports matches through the single sink", bool(m.sinks), **_kw(m), expected=">= 1 sink call", found=len(m.sinks))
+        for sn, ctx in m.sinks:
+            a = sn[1]
+            km = _kw_loop(m, ctx)
+            kw = _kw(m, sn[2])
+            if km is None:
+                if "roles" in want:
+                    rep.ob(rid, f"match_{kind}: the keyword is chosen by a first-match scan of the dialect's keyword lists", False, **kw,
+                           expected="for k in keywords: if line starts with k: ...", found="sink not inside a recognised keyword scan")
+                continue
+            got_lists += km.lists
+            if "roles" in want:
+                rep.eq(rid, f"match_{kind} reports token kind {kind}", const(kind), a.get("matched_type"), **kw)
+                rep.ob(rid, f"match_{kind}: the reported keyword is the list element that matched, as listed", a.get("keyword") == km.keyword, **kw,
+                       expected="the scanned keyword", found=fmt(a.get("keyword"), I) if a.get("keyword") else None)
+                prefix = ("binop", "Add", KW, const(":")) if suffix else KW
+                want_test = ("call", ".startswith", (trimmed, prefix), ())
+                rep.ob(rid, f"match_{kind}: a keyword matches iff the left-trimmed line starts with keyword" + (" + ':'" if suffix else ""),
+                       km.test == want_test, **kw, expected=fmt(want_test, I), found=fmt(km.test, I))
+                rep.ob(rid, f"match_{kind}: the first keyword that matches wins", _returns_true_after(m, sn), **kw,
+                       expected="return True right after the match", found="scan continues or falls through")
+            if "text" in want:
+                t = a.get("text")
+                ok = False
+                found = fmt(t, I) if t else None
+                tested = km.test[2][1] if km.test and km.test[0] == "call" and km.test[1] == ".startswith" and len(km.test[2]) == 2 else None
+                if t is not None and t[0] == "call" and t[1] == ".strip" and len(t[2]) == 1 and t[2][0][0] == "slice" and tested is not None:
+                    sl = t[2][0]
+                    off = nf.subst(sl[2], {km.keyword: KW})
+                    ok = sl[1] == trimmed and sl[3] == NONE and sl[4] == NONE and lin_eq(off, ("call", "len", (tested,), ()))
+                rep.ob(rid_text, f"match_{kind}: text = rest of the trimmed line after exactly the tested prefix, stripped", ok, **kw,
+                       expected=".strip(trimmed[len(<tested prefix>):])", found=found)
+        if "roles" in want:
+            rep.eq(rid, f"match_{kind} scans exactly the keyword lists of its role, in order", [fmt(x, I) for x in want_lists],
+                   [fmt(x, I) for x in got_lists], **_kw(m))
+
+
+def rule_keyword_types(rep: Report, rid="C05.types") -> None:
+    """keyword_types: given->Context, when->Action, then->Outcome, and+but->Conjunction; unique category else 'Unknown'."""
+    I = new_interp()
+    q = f"{MQ}._change_dialect"
+    fi = I.facts.func(q)
+    rep.used_function(fi.qualname)
+    tree, rv, st = I.run(q)
+    selft = ("param", fi.params()[0])
+    kw = dict(file=fi.file, line=fi.node.lineno, function=fi.qualname)
+    kt = st.ext.get((selft, "keyword_types")) if st else None
+    got = []
+    if kt is not None and kt[0] == "ref":
+        for n, ctx in nf.iter_nodes(tree):
+            if n[0] == "mutate" and n[2] == "append" and n[1][0] == "item" and n[1][1] == kt:
+                loops = nf.loops_in_ctx(ctx)
+                li = max((i for i, x in enumerate(ctx) if x[0] == "loop"), default=-1)
+                if len(loops) == 1 and n[1][2] == ("elem", loops[0]) and is_const(n[3][0]) and not nf.guards_in_ctx(ctx[li + 1:]):
+                    it = I.loops[loops[0]].get("iter")
+                    srcs = []
+                    def parts(t):
+                        if t[0] == "binop" and t[1] == "Add":
+                            return parts(t[2]) + parts(t[3])
+                        return [t]
+                    for x in parts(it):
+                        # Dialect properties are inlined to spec[...] reads of the dialect just looked up
+                        nm = None
+                        for s in nf.subterms(x):
+                            if s[0] == "item" and is_const(s[2]) and s[2][1] in ("given", "when", "then", "and", "but"):
+                                nm = s[2][1]
+                        if x[0] == "attr" and x[2].endswith("_keywords"):
+                            nm = x[2][: -len("_keywords")]
+                        srcs.append(nm)
+                    for s_ in srcs:
+                        got.append((s_, n[3][0][1]))
+                else:
+                    got.append(("irregular", fmt(n[1], I)))
+    want = [("given", "Context"), ("when", "Action"), ("then", "Outcome"), ("and", "Conjunction"), ("but", "Conjunction")]
+    rep.eq(rid, "the category table maps given/when/then/and/but keywords to Context/Action/Outcome/Conjunction/Conjunction",
+           sorted(want), sorted(got), **kw)
+    o = I.obj(kt) if kt else None
+    rep.ob(rid, "the category table is rebuilt from empty whenever the dialect changes", isinstance(o, HDict) and not o.entries, **kw,
+           expected="self.keyword_types = defaultdict(list)", found=fmt(kt, I) if kt else "never assigned")
+    # match_StepLine: unique category else 'Unknown'
+    m = mnf().methods["StepLine"]
+    I2 = m.I
+    for sn, ctx in m.sinks:
+        a = sn[1]
+        km = _kw_loop(m, ctx)
+        k = km.keyword if km else None
+        types = ("item", ("attr", m.selft, "keyword_types"), k)
+        want_t = ("cond", ("cmp", "Eq", ("call", "len", (types,), ()), const(1)), ("item", types, const(0)), const("Unknown"))
+        rep.ob(rid, "a step keyword's type is its category when it has exactly one, else 'Unknown'", a.get("keyword_type") == want_t,
+               **_kw(m, sn[2]), expected=fmt(want_t, I2), found=fmt(a.get("keyword_type"), I2) if a.get("keyword_type") else None)
+
+
+def rule_dialect_triple(rep: Report, rid="C05.triple") -> None:
+    """dialect_name, dialect and keyword_types are written only together, only by _change_dialect, after its raise;
+    reset() re-establishes the default through it."""
+    f = facts()
+    cls = f.cls(MQ)
+    group = {"dialect_name", "dialect", "keyword_types"}
+    writers: dict[str, set] = {a: set() for a in group}
+    for c in [cls] + [x for m in f.modules.values() for x in m.classes.values() if cls in x.mro() and x is not cls]:
+        for mname, fi in c.methods.items():
+            for n in ast.walk(fi.node):
+                if isinstance(n, ast.Attribute) and isinstance(n.ctx, (ast.Store, ast.Del)) and n.attr in group \
+                        and isinstance(n.value, ast.Name) and n.value.id == "self":
+                    writers[n.attr].add(fi.qualname)
+    cd = f"{MQ}._change_dialect"
+    for a in sorted(group):
+        rep.ob(rid, f"matcher attribute {a} is written only by _change_dialect", writers[a] == {cd}, file=MFILE, function=cd,
+               expected=[cd], found=sorted(writers[a]))
+    # inside _change_dialect: all three written on the same paths, after the unknown-dialect raise
+    I = new_interp()
+    fi = I.facts.func(cd)
+    tree, rv, st = I.run(cd)
+    rep.used_function(cd)
+    selft = ("param", fi.params()[0])
+    events = []
+    for n, ctx in nf.iter_nodes(tree):
+        if n[0] == "setattr" and n[1] == selft and n[2] in group:
+            events.append(("set", n[2], tuple(nf.guards_in_ctx(ctx)), n[4]))
+        elif n[0] == "raise" and not any(x[0] == "call" for x in ctx):
+            events.append(("raise", None, tuple(nf.guards_in_ctx(ctx)), n[2]))
+    sets = [e for e in events if e[0] == "set"]
+    gs = {e[2] for e in sets}
+    rep.ob(rid, "the three dialect attributes are assigned together on the same path", {e[1] for e in sets} == group and len(gs) == 1,
+           file=fi.file, line=fi.node.lineno, function=cd, expected="one path assigning all three", found=[(e[1], e[3]) for e in sets])
+    raises = [e for e in events if e[0] == "raise"]
+    first_set = min((i for i, e in enumerate(events) if e[0] == "set"), default=None)
+    ok = bool(raises) and first_set is not None and all(events.index(r) < first_set for r in raises)
+    rep.ob(rid, "an unknown dialect raises before any of the three attributes is touched", ok, file=fi.file, line=fi.node.lineno, function=cd,
+           expected="raise NoSuchLanguageException first", found=[(e[0], e[1], e[3]) for e in events])
+    dn = st.ext.get((selft, "dialect_name")) if st else None
+    rep.ob(rid, "dialect_name is the name that was looked up", dn == ("param", fi.params()[1]), file=fi.file, line=fi.node.lineno, function=cd,
+           expected=fi.params()[1], found=fmt(dn, I) if dn else None)
+    # reset(): default dialect restored via _change_dialect(default), unconditionally or iff name differs
+    I = new_interp()
+    rq = f"{MQ}.reset"
+    rfi = I.facts.func(rq)
+    marks = []
+
+    def cd_intrinsic(I_, st_, fi_, args, kwargs, n, tree_):
+        tree_.append(("change_dialect", tuple(args), getattr(n, "lineno", None)))
+        return NONE
+    I.intrinsics[cd] = cd_intrinsic
+    tree, rv, st = I.run(rq)
+    rep.used_function(rq)
+    selft = ("param", rfi.params()[0])
+    default = ("attr", selft, "_default_dialect_name")
+    calls = [(n, ctx) for n, ctx in nf.iter_nodes(tree) if n[0] == "change_dialect"]
+    ok = False
+    found = [(fmt(n[1][1], I) if len(n[1]) > 1 else None, [(fmt(a, I), p) for a, p in nf.guards_in_ctx(ctx)]) for n, ctx in calls]
+    if len(calls) == 1 and len(calls[0][0][1]) >= 2 and calls[0][0][1][1] == default:
+        g = nf.guards_in_ctx(calls[0][1])
+        same = ("cmp", "Eq", ("attr", selft, "dialect_name"), default)
+        same2 = ("cmp", "Eq", default, ("attr", selft, "dialect_name"))
+        ok = g == [] or g == [(same, False)] or g == [(same2, False)]
+    rep.ob(rid, "reset() restores the default dialect through _change_dialect (always, or exactly when the name differs)", ok,
+           file=rfi.file, line=rfi.node.lineno, function=rq, expected="if self.dialect_name != self._default_dialect_name: self._change_dialect(default)",
+           found=found)
+    # the default name is fixed at construction
+    w = set()
+    for c in [cls]:
+        for fi2 in c.methods.values():
+            for n in ast.walk(fi2.node):
+                if isinstance(n, ast.Attribute) and isinstance(n.ctx, ast.Store) and n.attr == "_default_dialect_name":
+                    w.add(fi2.name)
+    rep.ob(rid, "the default dialect name is only set by the constructor", w == {"__init__"}, file=MFILE, function=MQ + ".__init__",
+           expected=["__init__"], found=sorted(w))
+
+
+# ---- decision-tree comparison of cond terms ------------------------------------------------------
+def cond_atoms(t, acc=None):
+    if acc is None:
+        acc = []
+    if isinstance(t, tuple) and t:
+        if t[0] == "cond":
+            if t[1] not in acc:
+                acc.append(t[1])
+        for x in t:
+            if isinstance(x, tuple):
+                cond_atoms(x, acc)
+    return acc
+
+
+def resolve_conds(t, assign: dict):
+    if not isinstance(t, tuple) or not t:
+        return t
+    if t[0] == "cond" and t[1] in assign:
+        return resolve_conds(t[2] if assign[t[1]] else t[3], assign)
+    return tuple(resolve_conds(x, assign) if isinstance(x, tuple) else x for x in t)
+
+
+def text_extraction_sinks(M: "MatcherNF"):
+    for k, m in M.methods.items():
+        for sn, ctx in m.sinks:
+            yield k, m, sn, ctx
+
+
+def rule_text_extraction(rep: Report, rid="C03.text") -> None:
+    rule_roles(rep, rid_text=rid, want=("text",))
+    # doc string opener: media type = rest after the delimiter
+    rule_docstring_fsm(rep, rid, only_text=True)
+
+
+def _activation_writes(m: MethodNF, sink_node, attrs):
+    """setattr effects on self within the innermost inlined call that contains the sink (the path's state update)."""
+    def find(tree, inside):
+        for n in tree:
+            if n is sink_node:
+                return inside
+            if n[0] == "if":
+                for sub in (n[2], n[3]):
+                    r = find(sub, inside)
+                    if r is not None:
+                        return r
+            elif n[0] == "loop":
+                r = find(n[2], inside)
+                if r is not None:
+                    return r
+            elif n[0] == "call":
+                r = find(n[2], n[2])
+                if r is not None:
+                    return r
+        return None
+    scope = find(m.tree, m.tree) or m.tree
+    # path-consistent: nodes on the same root-to-sink path or straight-line siblings
+    def path_nodes(tree):
+        out = []
+        for n in tree:
+            if n is sink_node:
+                out.append(n)
+                return out, True
+            if n[0] == "if":
+                for sub in (n[2], n[3]):
+                    sub_out, hit = path_nodes(sub)
+                    if hit:
+                        return out + sub_out, True
+            elif n[0] in ("loop", "call"):
+                sub_out, hit = path_nodes(n[2])
+                if hit:
+                    return out + sub_out, True
+                out += [x for x in sub_out]
+            else:
+                out.append(n)
+        return out, False
+    nodes, hit = path_nodes(scope)
+    w = {}
+    for n in nodes:
+        if n[0] == "setattr" and n[1] == m.selft and n[2] in attrs:
+            w[n[2]] = n[3]
+    return w
+
+
+DS_ACTIVE = "_active_doc_string_separator"
+DS_INDENT = "_indent_to_remove"
+
+
+def rule_docstring_fsm(rep: Report, rid="C13.fsm", cls_q=MQ, openers=('"""', "```"), only_text=False) -> None:
+    """Typestate of the doc string delimiter: closed -> try each opener, the matching one becomes active with the
+    line's indent; open -> test only the active one, a match clears both fields."""
+    M = mnf(cls_q)
+    m = M.methods["DocStringSeparator"]
+    I = m.I
+    rep.used_function(m.fi.qualname)
+    line, trimmed, raw = line_terms(m)
+    active = ("attr", m.selft, DS_ACTIVE)
+    opened = []
+    closed = []
+    for sn, ctx in m.sinks:
+        gs = nf.guards_in_ctx(ctx)
+        pol = [p for c, p in gs if c == active]
+        tests = [(c, p) for c, p in gs if c[0] == "call" and c[1] == ".startswith"]
+        a = sn[1]
+        w = _activation_writes(m, sn, (DS_ACTIVE, DS_INDENT))
+        kw = _kw(m, sn[2])
+        if not pol:
+            rep.ob(rid, "every delimiter match is decided under a known open/closed state", False, **kw,
+                   expected=f"branch on self.{DS_ACTIVE}", found=[(fmt(c, I), p) for c, p in gs])
+            continue
+        pos = [c for c, p in tests if p]
+        sep = pos[-1][2][1] if pos and len(pos[-1][2]) == 2 and pos[-1][2][0] == trimmed else None
+        if pol[0] is False:
+            opened.append(sep)
+            if only_text:
+                t = a.get("text")
+                ok = t is not None and t[0] == "call" and t[1] == ".strip" and t[2][0][0] == "slice" and t[2][0][1] == trimmed \
+                    and sep is not None and lin_eq(t[2][0][2], ("call", "len", (sep,), ())) and t[2][0][3] == NONE
+                rep.ob(rid, f"opening delimiter {fmt(sep, I) if sep else '?'}: media type = rest of the trimmed line after the delimiter, stripped", ok, **kw,
+                       expected=".strip(trimmed[len(delimiter):])", found=fmt(t, I) if t else None)
+                continue
+            ok = sep is not None and is_const(sep) and w.get(DS_ACTIVE) == sep and w.get(DS_INDENT) == ("attr", line, "indent")
+            rep.ob(rid, f"closed state: a line starting with {fmt(sep, I) if sep else '?'} opens a doc string: that delimiter becomes active with the line's indent", ok, **kw,
+                   expected=f"{DS_ACTIVE} := delimiter, {DS_INDENT} := line.indent", found={k: fmt(v, I) for k, v in w.items()})
+            rep.ob(rid, "opening: token kind DocStringSeparator, keyword = the delimiter", a.get("matched_type") == const("DocStringSeparator") and a.get("keyword") == sep, **kw,
+                   expected="DocStringSeparator, delimiter", found=(fmt(a.get("matched_type"), I), fmt(a.get("keyword"), I) if a.get("keyword") else None))
+        else:
+            closed.append(sep)
+            if only_text:
+                continue
+            ok = sep == active and is_const(w.get(DS_ACTIVE), None) and is_const(w.get(DS_INDENT), 0)
+            rep.ob(rid, "open state: only the active delimiter is tested, and a match clears the delimiter and the indent to remove", ok, **kw,
+                   expected=f"startswith(active); {DS_ACTIVE} := None, {DS_INDENT} := 0",
+                   found={"tested": fmt(sep, I) if sep else None, **{k: fmt(v, I) for k, v in w.items()}})
+            rep.ob(rid, "closing: token kind DocStringSeparator, keyword = the active delimiter", a.get("matched_type") == const("DocStringSeparator") and a.get("keyword") == active, **kw,
+                   expected="DocStringSeparator, active delimiter", found=(fmt(a.get("matched_type"), I), fmt(a.get("keyword"), I) if a.get("keyword") else None))
+    if only_text:
+        return
+    got = [s[1] if s is not None and is_const(s) else fmt(s, I) for s in opened]
+    rep.eq(rid, "the opening delimiters are exactly " + " and ".join(repr(o) for o in openers), sorted(openers), sorted(map(str, got)), **_kw(m))
+    rep.ob(rid, "in the open state exactly one closing test exists (the other delimiter is content)", closed == [active], **_kw(m),
+           expected=["active delimiter"], found=[fmt(s, I) if s else None for s in closed])
+    # state writes happen only on matching paths: every write is dominated by a successful startswith test
+    for n, ctx in nf.iter_nodes(m.tree):
+        if n[0] == "setattr" and n[1] == m.selft and n[2] in (DS_ACTIVE, DS_INDENT):
+            gs = nf.guards_in_ctx(ctx)
+            ok = any(c[0] == "call" and c[1] == ".startswith" and p for c, p in gs)
+            rep.ob(rid, f"{n[2]} changes only when a delimiter line was matched", ok, **_kw(m, n[4]),
+                   expected="write under a successful delimiter test", found=[(fmt(c, I), p) for c, p in gs])
+
+
+def rule_docstring_own(rep: Report, rid="C13.own") -> None:
+    """The delimiter/indent fields are written only by the delimiter matcher and reset() - no other match_* touches them."""
+    f = facts()
+    base = f.cls(MQ)
+    allowed = {"_match_DocStringSeparator", "match_DocStringSeparator", "reset", "__init__"}
+    n = 0
+    for m in f.modules.values():
+        if m.name == "gherkin.inout":
+            continue
+        for c in m.classes.values():
+            for fi in c.methods.values():
+                for node in ast.walk(fi.node):
+                    if isinstance(node, ast.Attribute) and node.attr in (DS_ACTIVE, DS_INDENT) and isinstance(node.ctx, (ast.Store, ast.Del)):
+                        n += 1
+                        ok = base in c.mro() and fi.name in allowed
+                        rep.ob(rid, f"{node.attr} is written only by the delimiter matcher and reset()", ok, file=fi.file, line=node.lineno,
+                               function=fi.qualname, expected=sorted(allowed), found=fi.name)
+        for fi in m.functions.values():
+            for node in ast.walk(fi.node):
+                if isinstance(node, ast.Attribute) and node.attr in (DS_ACTIVE, DS_INDENT) and isinstance(node.ctx, (ast.Store, ast.Del)):
+                    rep.ob(rid, f"{node.attr} is written only by the delimiter matcher and reset()", False, file=fi.file, line=node.lineno,
+                           function=fi.qualname, expected=sorted(allowed), found=fi.name)
+    rep.floor("doc string state write sites", n, 6)
+
+
+def rule_other_text(rep: Report, rid="C13.text", cls_q=MQ, openers=('"""', "```")) -> None:
+    """match_Other: text = line minus the opening delimiter's indentation (all of its own when indented less), with the
+    escaped form of the *active* delimiter turned back - and nothing else."""
+    M = mnf(cls_q)
+    m = M.methods["Other"]
+    I = m.I
+    rep.used_function(m.fi.qualname)
+    line, trimmed, raw = line_terms(m)
+    ind = ("attr", m.selft, DS_INDENT)
+    active = ("attr", m.selft, DS_ACTIVE)
+    C = ("bool", "or", (("cmp", "Lt", ind, const(0)), ("cmp", "Gt", ind, ("attr", line, "indent"))))
+    rep.eq(rid, "match_Other reports every line, unconditionally, exactly once", 1, len(m.sinks), **_kw(m))
+    for sn, ctx in m.sinks:
+        a = sn[1]
+        kw = _kw(m, sn[2])
+        rep.ob(rid, "match_Other matches unconditionally", not nf.guards_in_ctx(ctx), **kw, expected="no guard", found=[(fmt(c, I), p) for c, p in nf.guards_in_ctx(ctx)])
+        t = a.get("text")
+        atoms = cond_atoms(t) if t else []
+        eq_atoms = {o: ("cmp", "Eq", active, const(o)) for o in openers}
+        allowed = set(eq_atoms.values()) | {C}
+        rep.ob(rid, "the text depends only on the active delimiter and on 'indent to remove' vs the line's indent", set(atoms) <= allowed and C in atoms, **kw,
+               expected=[fmt(x, I) for x in sorted(allowed, key=str)], found=[fmt(x, I) for x in atoms])
+        if not (set(atoms) <= allowed):
+            continue
+        import itertools
+        bad = []
+        for which in [None] + list(openers):
+            for cval in (True, False):
+                assign = {C: cval}
+                for o, at in eq_atoms.items():
+                    assign[at] = (o == which)
+                got = resolve_conds(t, assign)
+                base = trimmed if cval else ("slice", raw, ind, NONE, NONE)
+                want = base
+                if which is not None:
+                    esc = "".join("\\" + ch for ch in which)
+                    want = ("call", ".replace", (base, const(esc), const(which)), ())
+                if got != want:
+                    bad.append({"active": which, "less_indented_or_negative": cval, "expected": fmt(want, I), "found": fmt(got, I)})
+        rep.ob(rid, "content line = line[indent_to_remove:] (fully left-trimmed when indented less), escaped active delimiter restored, other delimiter untouched",
+               not bad, **kw, expected="per-case table (active delimiter x indentation relation)", found=bad or "all 6 cases as expected")
+        rep.ob(rid, "content lines are reported at column 1 (indent 0), kind Other", a.get("indent") == const(0) and a.get("matched_type") == const("Other"), **kw,
+               expected="indent=0", found=(fmt(a.get("indent"), I) if a.get("indent") else None))
+
+
+def rule_token_table(rep: Report, rid="C16.trim", rid_col="C04.col") -> None:
+    """Non-keyword kinds: what is tested and what is stored (Appendix B of DESIGN.md)."""
+    M = mnf()
+    any_m = M.methods["TableRow"]
+    for kind in ("TableRow", "TagLine", "Comment", "Empty", "EOF", "Language"):
+        m = M.methods[kind]
+        I = m.I
+        rep.used_function(m.fi.qualname)
+        line, trimmed, raw = line_terms(m)
+        rep.eq(rid, f"match_{kind} has exactly one way to match", 1, len(m.sinks), **_kw(m))
+        for sn, ctx in m.sinks:
+            a = sn[1]
+            gs = nf.guards_in_ctx(ctx)
+            kw = _kw(m, sn[2])
+            exp_guard = {
+                "TableRow": [(("call", ".startswith", (trimmed, const("|")), ()), True)],
+                "TagLine": [(("call", ".startswith", (trimmed, const("@")), ()), True)],
+                "Comment": [(("call", ".startswith", (trimmed, const("#")), ()), True)],
+                "Empty": [(trimmed, False)],
+                "EOF": [(line, False)],
+            }.get(kind)
+            if exp_guard is not None:
+                rep.eq(rid, f"match_{kind} tests the left-trimmed line" if kind != "EOF" else "match_EOF tests for the missing line",
+                       [(fmt(c, I), p) for c, p in exp_guard], [(fmt(c, I), p) for c, p in gs], **kw)
+            rep.eq(rid, f"match_{kind} reports kind {kind}", const(kind), a.get("matched_type"), **kw)
+            exp_indent = const(0) if kind in ("Comment", "Empty") else None
+            rep.ob(rid_col, f"match_{kind}: column is " + ("1 (indent 0)" if exp_indent else "the line's indent + 1 (default indent)"),
+                   a.get("indent") == exp_indent or (exp_indent is None and a.get("indent") == ("attr", line, "indent")), **kw,
+                   expected=fmt(exp_indent, I) if exp_indent else "default", found=fmt(a.get("indent"), I) if a.get("indent") else "default")
+            if kind == "Comment":
+                rep.eq(rid, "a comment keeps the whole raw line as its text", fmt(raw, I), fmt(a.get("text"), I) if a.get("text") else None, **kw)
+            if kind == "TableRow":
+                rep.eq(rid, "table row items are the line's cells", ("prop", "table_cells", line), a.get("items"), **kw)
+            if kind == "TagLine":
+                rep.eq(rid, "tag line items are the line's tags", ("prop", "tags", line), a.get("items"), **kw)
+    # keyword kinds use the default indent
+    for kind in list(TITLE_ROLES) + ["StepLine", "DocStringSeparator"]:
+        m = M.methods[kind]
+        line, trimmed, raw = line_terms(m)
+        for sn, ctx in m.sinks:
+            a = sn[1]
+            rep.ob(rid_col, f"match_{kind}: column is the line's indent + 1 (default indent)", a.get("indent") in (None, ("attr", line, "indent")),
+                   **_kw(m, sn[2]), expected="default", found=fmt(a.get("indent"), m.I) if a.get("indent") else "default")
+        # no test on the raw (untrimmed) line
+        for n, ctx in nf.iter_nodes(m.tree):
+            if n[0] == "if" and nf.contains(n[1], lambda t: t == raw):
+                rep.ob(rid, f"match_{kind} never tests the untrimmed line", False, **_kw(m, n[4]), expected="tests on the left-trimmed text", found=fmt(n[1], m.I))
+    rep.ob(rid, "keyword, step and delimiter matching read the left-trimmed line only", True, **_kw(any_m), expected="no raw-line test", found="none")
+
+
+def rule_reset(rep: Report, rid="C15.reset", classes=(MQ, "gherkin.token_matcher_markdown.GherkinInMarkdownTokenMatcher")) -> None:
+    """Every matcher attribute written while matching is re-established by reset()."""
+    f = facts()
+    for cq in classes:
+        cls = f.cls(cq)
+        # attributes written by methods other than __init__/reset (directly)
+        written: dict[str, set] = {}
+        for c in cls.mro():
+            for fi in c.methods.values():
+                if fi.name in ("__init__", "reset"):
+                    continue
+                if cls.find_method(fi.name) is not fi:
+                    continue  # overridden
+                for n in ast.walk(fi.node):
+                    if isinstance(n, ast.Attribute) and isinstance(n.ctx, (ast.Store, ast.Del)) and isinstance(n.value, ast.Name) and n.value.id == "self":
+                        written.setdefault(n.attr, set()).add(fi.qualname)
+                    # in-place mutation of an attribute: self.x.append(...), self.x[k] = v, self.x += ...
+                    if isinstance(n, ast.Call) and isinstance(n.func, ast.Attribute) and n.func.attr in Interp.MUTATORS \
+                            and isinstance(n.func.value, ast.Attribute) and isinstance(n.func.value.value, ast.Name) and n.func.value.value.id == "self":
+                        written.setdefault(n.func.value.attr, set()).add(fi.qualname)
+                    if isinstance(n, ast.Subscript) and isinstance(n.ctx, (ast.Store, ast.Del)) and isinstance(n.value, ast.Attribute) \
+                            and isinstance(n.value.value, ast.Name) and n.value.value.id == "self":
+                        written.setdefault(n.value.attr, set()).add(fi.qualname)
+        # what reset() establishes
+        I = new_interp()
+        rfi = cls.find_method("reset")
+        if rfi is None:
+            raise AnalysisError(f"anchor vanished: {cq}.reset")
+        cd = f"{MQ}._change_dialect"
+
+        def cd_intrinsic(I_, st_, fi_, args, kwargs, n, tree_):
+            tree_.append(("change_dialect", tuple(args), getattr(n, "lineno", None)))
+            return NONE
+        I.intrinsics[cd] = cd_intrinsic
+        selfn = rfi.params()[0]
+        I.types[("param", selfn)] = cls
+        tree, rv, st = I.run(rfi.qualname)
+        rep.used_function(rfi.qualname)
+        selft = ("param", selfn)
+        established = {}
+        for n, ctx in nf.iter_nodes(tree):
+            if n[0] == "setattr" and n[1] == selft:
+                gs = nf.guards_in_ctx(ctx)
+                established.setdefault(n[2], []).append((n[3], gs))
+        group = {"dialect_name", "dialect", "keyword_types"}
+        has_cd = any(n[0] == "change_dialect" for n, _ in nf.iter_nodes(tree))
+        for a in sorted(written):
+            if a in group:
+                rep.ob(rid, f"{cls.short}: {a} is restored by reset() through the dialect switch (see the triple rule)", has_cd,
+                       file=rfi.file, line=rfi.node.lineno, function=rfi.qualname, expected="_change_dialect(default)", found="no dialect restore in reset()")
+                continue
+            est = established.get(a, [])
+            ok = any(not gs and (is_const(v) or (v[0] == "ref" and isinstance(I.obj(v), (HList, HDict)) and v[0] == "ref")) for v, gs in est)
+            rep.ob(rid, f"{cls.short}: attribute {a} (written by {', '.join(sorted(x.rsplit('.', 1)[1] for x in written[a]))}) is reset unconditionally to a constant / fresh value",
+                   ok, file=rfi.file, line=rfi.node.lineno, function=rfi.qualname, expected=f"self.{a} = <constant or fresh object> in reset()",
+                   found=[(fmt(v, I), [(fmt(c, I), p) for c, p in gs]) for v, gs in est] or "not assigned by reset()")
+        rep.counts[f"{cls.short} per-document attributes"] = len(written)
